@@ -366,8 +366,19 @@ fn hostile_history() {
     let len = history_programs().len();
     let mut idx = k % len;
     // the two long evaluations cost about a million steps each: every fourth time their turn comes
-    if (idx == HISTORY_PROGRAMS_PLAIN.len() || idx == HISTORY_PROGRAMS_PLAIN.len() + 1 || idx == len - 1) && (k / len) % 4 != 0 {
+    if (idx == HISTORY_PROGRAMS_PLAIN.len() || idx == HISTORY_PROGRAMS_PLAIN.len() + 1) && (k / len) % 4 != 0 {
         idx = (idx + 2) % len;
+    }
+    // the build that uses up the whole evaluation budget takes more than a second: twice per thread
+    if idx == len - 1 {
+        thread_local! { static EXHAUSTED: Cell<u32> = const { Cell::new(0) }; }
+        let seen = EXHAUSTED.with(|c| {
+            c.set(c.get() + 1);
+            c.get()
+        });
+        if seen > 2 {
+            idx = 1;
+        }
     }
     run_history_program(idx);
 }
